@@ -13,6 +13,12 @@
      (Tie_refs_exist names the reference) and the changed site is not
      accounted for (Tie_complete names the site);
    - a new blocking site appears in a listed function: Tie_complete;
+   - a channel whose capacity an allow-list reason relies on is created with
+     another capacity: Tie_capacities;
+   - a two-valued receive on a channel that is released by closing it
+     becomes single-valued: the key no longer matches (Tie_refs_exist), and
+     the reference cannot be rewritten to the single-valued form
+     (Tie_quit_roles_named);
    - ChainService.Stop or a component's Stop changes its order of steps:
      Tie_stop_sequences / Tie_stop_order;
    - a listed function disappears: Tie_complete (kind MissingFunction).     *)
@@ -20,6 +26,40 @@ From Coq Require Import ZArith String List Bool Arith.
 From Verif Require Import C17.Model C17.WaitTypes C17.Sites Generated.WaitSites.
 Import ListNotations.
 Open Scope string_scope.
+
+Definition covered (g : gsite) : bool :=
+  kind_eqb (g_kind g) SelectDefault
+  || kind_eqb (g_kind g) MakeChan   (* not a blocking site; see Tie_capacities *)
+  || existsb (fun r => matches (r_key r) g) site_refs
+  || existsb (fun sq => String.eqb (fst sq) (g_fn g)) stop_sequences
+  || existsb (fun a => matches (a_key a) g) nonblocking_or_irrelevant.
+
+(* All offenders at once (coqc stops at the first failing theorem, so this
+   one comes first and shows everything a change of the source broke):
+   references that no longer match, generated sites nobody accounts for, Stop
+   functions whose steps changed, channel capacities an allow-list reason
+   relies on that changed. *)
+Definition seq_ok (sq : string * list (string * kind * list alt)) : bool :=
+  list_eqb (fun x y => let '(c1, k1, a1) := x in let '(c2, k2, a2) := y in
+                       String.eqb c1 c2 && kind_eqb k1 k2 && alts_eqb a1 a2)
+           (sites_of_fn (fst sq) wait_sites) (snd sq).
+
+Definition cap_ok (c : capclaim) : bool :=
+  Nat.eqb (count_of (mkKey (c_fn c) "" MakeChan [Made (c_name c) (c_cap c)]) wait_sites) (c_n c)
+  && Nat.eqb (made_count (c_fn c) (c_name c) wait_sites) (c_n c) && negb (Nat.eqb (c_n c) 0).
+
+Definition ref_matches (r : sref) : bool :=
+  Nat.eqb (count_of (r_key r) wait_sites) (r_count r).
+
+Theorem Tie_summary :
+  (map (fun r => (r_site r, r_key r, count_of (r_key r) wait_sites)) (filter (fun r => negb (ref_matches r)) site_refs),
+   map show (filter (fun g => negb (covered g)) wait_sites),
+   map (fun sq => (fst sq, sites_of_fn (fst sq) wait_sites)) (filter (fun sq => negb (seq_ok sq)) stop_sequences),
+   map (fun c => (c, filter (fun g => String.eqb (c_fn c) (g_fn g) && kind_eqb (g_kind g) MakeChan) wait_sites))
+       (filter (fun c => negb (cap_ok c)) (flat_map a_caps nonblocking_or_irrelevant)))
+  = ([], [], [], []).
+Proof. vm_compute. reflexivity. Qed.
+Print Assumptions Tie_summary.
 
 (* ------------------------------------------------------------------ *)
 (* (a) every reference exists in the generated table, with exactly the
@@ -79,13 +119,17 @@ Proof. vm_compute. reflexivity. Qed.
 Print Assumptions Tie_refs_sound.
 
 (* every Quit role is put on a channel expression that quit_names lists for
-   that file and component *)
+   that file and component; where the release is the closing of a channel
+   that carries data (flag), the receive is of the two-valued form *)
 Definition alt_text (a : alt) : string :=
-  match a with RecvFrom s | SendTo s | Timer s | WaitOn s => s | Default => "" end.
+  match a with RecvFrom s | RecvFromOk s | SendTo s | Timer s | WaitOn s => s | Made s _ => s | Default => "" end.
+
+Definition two_valued (a : alt) : bool := match a with RecvFromOk _ => true | _ => false end.
 
 Definition quit_named (fn : string) (a : alt) (c : comp) : bool :=
-  existsb (fun e => let '(file, ch, c') := e in
-                    String.prefix (file ++ ":") fn && String.eqb ch (alt_text a) && comp_eqb c c')
+  existsb (fun e => let '(file, ch, c', closed_data) := e in
+                    String.prefix (file ++ ":") fn && String.eqb ch (alt_text a) && comp_eqb c c'
+                    && (negb closed_data || two_valued a))
           quit_names.
 
 Definition ref_quits_named (r : sref) : bool :=
@@ -109,11 +153,7 @@ Print Assumptions Tie_hand_sites_referenced.
    order, and the order of ChainService.Stop is the model's stop order.  *)
 
 Theorem Tie_stop_sequences :
-  filter (fun sq => negb (list_eqb (fun x y =>
-                             let '(c1, k1, a1) := x in let '(c2, k2, a2) := y in
-                             String.eqb c1 c2 && kind_eqb k1 k2 && alts_eqb a1 a2)
-                           (sites_of_fn (fst sq) wait_sites) (snd sq)))
-         stop_sequences = [].
+  filter (fun sq => negb (seq_ok sq)) stop_sequences = [].
 Proof. vm_compute. reflexivity. Qed.
 Print Assumptions Tie_stop_sequences.
 
@@ -132,6 +172,15 @@ Theorem Tie_allow_exact :
 Proof. vm_compute. reflexivity. Qed.
 Print Assumptions Tie_allow_exact.
 
+(* every capacity an allow-list reason relies on is the capacity the source
+   gives the channel: the function creates exactly the claimed number of
+   channels under that name, each with exactly the claimed capacity text *)
+Theorem Tie_capacities :
+  map (fun c => (c, filter (fun g => String.eqb (c_fn c) (g_fn g) && kind_eqb (g_kind g) MakeChan) wait_sites))
+      (filter (fun c => negb (cap_ok c)) (flat_map a_caps nonblocking_or_irrelevant)) = [].
+Proof. vm_compute. reflexivity. Qed.
+Print Assumptions Tie_capacities.
+
 Theorem Tie_supports_exist :
   filter (fun s => let '(_, k, n) := s in negb (Nat.eqb (count_of k wait_sites) n)) supports = [].
 Proof. vm_compute. reflexivity. Qed.
@@ -141,12 +190,6 @@ Print Assumptions Tie_supports_exist.
 (* (b) COMPLETENESS: every blocking site the translator found in the listed
    functions is referred to by the hand table, is a step of a Stop function,
    is on the allow-list, or is a select with a default case.             *)
-
-Definition covered (g : gsite) : bool :=
-  kind_eqb (g_kind g) SelectDefault
-  || existsb (fun r => matches (r_key r) g) site_refs
-  || existsb (fun sq => String.eqb (fst sq) (g_fn g)) stop_sequences
-  || existsb (fun a => matches (a_key a) g) nonblocking_or_irrelevant.
 
 Theorem Tie_complete :
   map show (filter (fun g => negb (covered g)) wait_sites) = [].
